@@ -177,3 +177,50 @@ func Receive(ctx context.Context, t lime.Transport) (interface{}, error) {
 	}
 	return v, nil
 }
+
+// PaddedSession returns a well-formed session envelope (state "new") whose
+// encoded size (Item.Size: the JSON text plus the trailing newline written by
+// the transport's encoder) is exactly size bytes. The value of one metadata
+// entry is padded with 'p'; sizes too small for a metadata entry are reached
+// by padding the id instead, and MinSessionSize is the unpadded envelope.
+func PaddedSession(size int) *Item {
+	mk := func(id string, meta *string) *lime.Session {
+		s := &lime.Session{}
+		s.State = lime.SessionStateNew
+		if id != "" {
+			s.SetID(id)
+		}
+		if meta != nil {
+			s.SetMetadataKeyValue("p", *meta)
+		}
+		return s
+	}
+	name := fmt.Sprintf("ses/%d", size)
+	empty := ""
+	minMeta := NewItem("", mk("", &empty)).Size()
+	minID := NewItem("", mk("p", nil)).Size()
+	var it *Item
+	switch {
+	case size >= minMeta:
+		pad := strings.Repeat("p", size-minMeta)
+		it = NewItem(name, mk("", &pad))
+	case size >= minID:
+		it = NewItem(name, mk(strings.Repeat("p", 1+size-minID), nil))
+	case size == MinSessionSize():
+		it = NewItem(name, mk("", nil))
+	default:
+		panic(fmt.Sprintf("pconn: no well-formed session of %d bytes", size))
+	}
+	if it.Size() != size {
+		panic(fmt.Sprintf("pconn: padding gave %d bytes instead of %d", it.Size(), size))
+	}
+	return it
+}
+
+// MinSessionSize is the size of the smallest envelope PaddedSession makes:
+// {"state":"new"} plus newline.
+func MinSessionSize() int {
+	s := &lime.Session{}
+	s.State = lime.SessionStateNew
+	return NewItem("", s).Size()
+}
